@@ -1,22 +1,59 @@
 //! Seeded generators of universes and problems.
 use crate::universe::*;
 
+/// Source of choices for the generators: a seeded PRNG (splitmix64), or - for coverage-guided
+/// fuzzing - a finite byte tape: every choice consumes one, two or eight bytes of the tape, so that
+/// a small mutation of the tape is a small mutation of the generated case; an exhausted tape
+/// answers 0 (the smallest choice) forever.
 #[derive(Clone)]
-pub struct Rng(pub u64);
+pub struct Rng {
+    state: u64,
+    tape: Option<(std::rc::Rc<[u8]>, usize)>,
+}
 impl Rng {
     pub fn new(seed: u64) -> Self {
-        Rng(seed)
+        Rng { state: seed, tape: None }
+    }
+    pub fn from_tape(data: &[u8]) -> Self {
+        Rng { state: 0, tape: Some((data.into(), 0)) }
+    }
+    /// bytes of the tape consumed so far (tape mode)
+    pub fn consumed(&self) -> usize {
+        self.tape.as_ref().map(|t| t.1).unwrap_or(0)
+    }
+    fn take(&mut self, n: usize) -> u64 {
+        let (data, pos) = self.tape.as_mut().expect("tape mode");
+        let mut v = 0u64;
+        for _ in 0..n {
+            v = (v << 8) | data.get(*pos).copied().unwrap_or(0) as u64;
+            *pos += 1;
+        }
+        v
     }
     pub fn next(&mut self) -> u64 {
+        if self.tape.is_some() {
+            return self.take(8);
+        }
         // splitmix64
-        self.0 = self.0.wrapping_add(0x9E3779B97F4A7C15);
-        let mut z = self.0;
+        self.state = self.state.wrapping_add(0x9E3779B97F4A7C15);
+        let mut z = self.state;
         z = (z ^ (z >> 30)).wrapping_mul(0xBF58476D1CE4E5B9);
         z = (z ^ (z >> 27)).wrapping_mul(0x94D049BB133111EB);
         z ^ (z >> 31)
     }
     pub fn below(&mut self, n: u64) -> u64 {
-        if n == 0 { 0 } else { self.next() % n }
+        if n == 0 {
+            return 0;
+        }
+        if self.tape.is_some() {
+            return match n {
+                1 => 0,
+                2..=256 => self.take(1) % n,
+                257..=65536 => self.take(2) % n,
+                _ => self.take(8) % n,
+            };
+        }
+        self.next() % n
     }
     pub fn range(&mut self, lo: u64, hi: u64) -> u64 {
         lo + self.below(hi - lo + 1)
@@ -46,8 +83,16 @@ impl Rng {
         p
     }
     pub fn fork(&mut self) -> Rng {
-        Rng(self.next())
+        Rng::new(self.next())
     }
+}
+
+/// The families built around one known-delicate mechanism (`soft-backjump`, `soft-learn-reject`)
+/// can be switched off with RVMON_PLAIN_FAMILIES=1: used only to measure what coverage guidance
+/// finds on its own (DESIGN section 6).
+pub fn shaped_enabled() -> bool {
+    static ON: std::sync::OnceLock<bool> = std::sync::OnceLock::new();
+    *ON.get_or_init(|| std::env::var_os("RVMON_PLAIN_FAMILIES").is_none())
 }
 
 #[derive(Clone, Debug)]
